@@ -9,7 +9,7 @@
    This file only states the theorems; proofs are in Proofs/LinComb.v, HomogR.v, HullR.v, HullR2.v, HullLen.v. *)
 From Coq Require Import List Reals Lra Lia Arith Bool QArith Qreals.
 From NV Require Import Scalar.Ops Model.Common Model.Basis Model.Knots Model.Eval Model.Homog Model.Hull
-  Proofs.BasisR Proofs.LinComb Proofs.HomogR Proofs.HullR Proofs.HullR2 Proofs.HullLen.
+  Proofs.BasisR Proofs.LinComb Proofs.HomogR Proofs.HullR Proofs.HullR2 Proofs.HullLen Transfer.BasisT Transfer.HullT.
 Import ListNotations.
 Open Scope R_scope.
 
@@ -23,6 +23,16 @@ Theorem C18_curve_point_in_hull : forall (dim p : nat) (U : list R) (P : list (l
   lo <= vdot Rops d (curve_point Rops dim p U P u) <= hi.
 Proof. intros dim p U P u d lo hi Hs Hn HL Hd Hu. exact (curve_point_in_hull dim p U P u Hs Hn HL Hd Hu d lo hi). Qed.
 Print Assumptions C18_curve_point_in_hull.
+
+(* [G] the same statement about the EXECUTABLE rational instance (what the correspondence check runs), by parametricity *)
+Theorem C18_curve_point_in_hull_Q : forall (dim p : nat) (U : list Q) (P : list (list Q)) (u : Q) (d : list Q) (lo hi : Q),
+  sortedQ U -> (p < length P)%nat -> (length P + p < length U)%nat -> Forall (fun q => length q = dim) P ->
+  (kn Qops U p <= u)%Q -> (u <= kn Qops U (length P))%Q -> (kn Qops U (length P - 1) < kn Qops U (length P))%Q ->
+  length d = dim ->
+  Forall (fun q => (lo <= vdot Qops d q)%Q /\ (vdot Qops d q <= hi)%Q) (find_ctrlpts_curve Qops p U P u) ->
+  (lo <= vdot Qops d (curve_point Qops dim p U P u))%Q /\ (vdot Qops d (curve_point Qops dim p U P u) <= hi)%Q.
+Proof. exact curve_point_in_hull_Q. Qed.
+Print Assumptions C18_curve_point_in_hull_Q.
 
 (* [G] surfaces: the (pu+1)(pv+1) active control points *)
 Theorem C18_surface_point_in_hull : forall (dim pu pv su sv : nat) (Uu Uv : list R) (P : list (list R)) (u v : R) (d : list R) (lo hi : R),
